@@ -3,6 +3,7 @@ pub mod disasm;
 pub mod json;
 pub mod types;
 pub mod value;
+pub mod vm;
 
 pub fn generate(family: &str, seed: u64, n: usize, tier: &str, emit: &mut dyn FnMut(String)) {
     match family {
@@ -10,6 +11,7 @@ pub fn generate(family: &str, seed: u64, n: usize, tier: &str, emit: &mut dyn Fn
         "ds" => containers::generate_ds(seed, n, tier, emit),
         "vmap" => containers::generate_vmap(seed, n, tier, emit),
         "word" => value::generate_word(seed, n, tier, emit),
+        "vm" => vm::generate(seed, n, tier, emit),
         "json" => json::generate(seed, n, tier, emit),
         "merge" => types::generate_merge(seed, n, tier, emit),
         "fold" => value::generate_fold(seed, n, tier, emit),
@@ -24,6 +26,7 @@ pub fn eval(family: &str, payload: &str) -> String {
         "ds" => containers::eval_ds(payload),
         "vmap" => containers::eval_vmap(payload),
         "word" => value::eval_word(payload),
+        "vm" => vm::eval(payload),
         "json" => json::eval(payload),
         "merge" => types::eval_merge(payload),
         "fold" => value::eval_fold(payload),
